@@ -4,6 +4,6 @@ P="$(readlink -f "$1")"; shift
 D=$(mktemp -d /tmp/mutXXXXXX)
 rsync -a --exclude .git --exclude __pycache__ /repo/ "$D/"
 (cd "$D" && patch -p1 -s < "$P") || { echo "PATCH FAILED"; rm -rf "$D"; exit 9; }
-VERIF_REPO="$D" /verif/check "$@" 2>&1 | grep -v "WARNING conda"
+VERIF_NO_EVIDENCE=1 VERIF_REPO="$D" /verif/check "$@" 2>&1 | grep -v "WARNING conda"
 RC=$?
 rm -rf "$D"
